@@ -4,6 +4,7 @@ CONSTANTS
   Voters <- V7
   W <- UnitW
   EqV <- V7
+  LeafBias = FALSE
   PVUnanimous = FALSE
   MaxPV = 2
   MaxPC = 2
